@@ -27,13 +27,13 @@ import (
 // Liberties are the ways a third-party TOC may deviate from what this builder emits while
 // staying within the documented format.
 type Liberties struct {
-	DropDirEntries  bool   `json:"drop_dir_entries,omitempty"` // directories only implicit
-	RepeatDirs      int    `json:"repeat_dirs,omitempty"`      // repeat this many directory entries (with other attrs)
-	NoFileDigest    bool   `json:"no_file_digest,omitempty"`   // chunkDigest only
-	Spell           string `json:"spell,omitempty"`            // prefix put before TOC names: "./", "/", "../"
-	TrailingWS      int    `json:"trailing_ws,omitempty"`      // whitespace bytes after the TOC JSON
-	ShareStreams    int    `json:"share_streams,omitempty"`    // innerOffset streams
-	RootEntry       bool   `json:"root_entry,omitempty"`       // explicit "./" entry
+	DropDirEntries  bool   `json:"drop_dir_entries,omitempty"`  // directories only implicit
+	RepeatDirs      int    `json:"repeat_dirs,omitempty"`       // repeat this many directory entries (with other attrs)
+	NoFileDigest    bool   `json:"no_file_digest,omitempty"`    // chunkDigest only
+	Spell           string `json:"spell,omitempty"`             // prefix put before TOC names: "./", "/", "../"
+	TrailingWS      int    `json:"trailing_ws,omitempty"`       // whitespace bytes after the TOC JSON
+	ShareStreams    int    `json:"share_streams,omitempty"`     // innerOffset streams
+	RootEntry       bool   `json:"root_entry,omitempty"`        // explicit "./" entry
 	ZeroAfterRepeat bool   `json:"zero_after_repeat,omitempty"` // the repeated directory entry has zero uid/gid/mode bits
 	Indent          bool   `json:"indent,omitempty"`
 }
@@ -64,7 +64,7 @@ func gen(t *rapid.T) Case {
 	if cs == 0 {
 		cs = 64
 	}
-	c.Archive = tarmodel.Gen(t, tarmodel.GenOpts{MaxEntries: 12, ChunkSize: cs, Hardlinks: true, Devices: true, Dups: c.Source == "builder", Spellings: c.Source == "builder", Xattrs: true, RootEntry: c.Source == "builder", BigIDs: true})
+	c.Archive = tarmodel.Gen(t, tarmodel.GenOpts{MaxEntries: 12, ChunkSize: cs, Hardlinks: true, Devices: true, Dups: c.Source == "builder", Spellings: c.Source == "builder", Xattrs: true, RootEntry: c.Source == "builder", BigIDs: true, ManyChunks: true})
 	if c.Source == "thirdparty" {
 		c.Lib = Liberties{
 			DropDirEntries: rapid.Bool().Draw(t, "dropdirs"),
